@@ -1084,6 +1084,47 @@ pub fn silent_child() -> i32 {
     0
 }
 
+/// Language tags beyond the seven ISO 639-1 codes that a lookup might accept (regional variants, a few neighbouring
+/// languages). On the pinned tree none resolves; a tree that adds an interpreter is exercised through these.
+const EXTRA_TAGS: [&str; 24] = ["pt-BR", "pt_BR", "pt-PT", "de-AT", "de_AT", "de-CH", "fr-BE", "fr-CH", "fr-CA", "en-US", "en-GB", "es-MX", "es-419", "nl-BE", "it-CH", "ca", "ro", "gl", "sv", "da", "no", "pl", "ru", "tr"];
+
+fn order_texts() -> Vec<String> {
+    let mut v = vec![];
+    for l in langs::ALL {
+        let (p1, p2, c) = phrases(l, false);
+        v.extend([p1, p2, c, format!("xyzzy , plugh {} xyzzy", crate::vocab::cls(l).linking)]);
+    }
+    v
+}
+
+/// `t2n-verif c14-order-child <tag>`: the interpreter looked up under <tag> makes the FIRST calls of this process
+/// (every entry point on texts of every language); then the call alphabet runs on fresh interpreters of the seven
+/// languages and the results are printed, one JSON line per language.
+pub fn order_child(tag: &str) -> i32 {
+    let Some(first) = text2num::get_interpreter_for(tag) else { return 0 };
+    for t in order_texts() {
+        let _ = guard(|| text2digits(&t, &first).ok());
+        let _ = guard(|| replace_numbers_in_text(&t, &first, 0.0));
+        let _ = guard(|| replace_numbers_in_text(&t, &first, 10.0));
+    }
+    for l in langs::ALL {
+        println!("{}", json!({"lang": l.code(), "results": order_results(l)}));
+    }
+    0
+}
+
+/// the call alphabet, then two small numbers around every linking word and every unknown source literal
+fn order_results(l: L) -> Vec<String> {
+    let lang = l.facade();
+    let mut got: Vec<String> = (0..NCALLS).map(|i| call(&lang, l, i)).collect();
+    let c = crate::vocab::cls(l);
+    for w in crate::vocab::linking_words(l).iter().map(|x| x.to_string()).chain(crate::vocab::new_source_literals(l)) {
+        let text = format!("{} {w} {}", c.one, c.unit);
+        got.push(guard(|| replace_numbers_in_text(&text, &lang, 10.0)).unwrap_or_else(|e| e));
+    }
+    got
+}
+
 pub fn run(tier: Tier) -> i32 {
     let ctx = Ctx::new("C14", tier);
     let mut acc = Acc::new();
@@ -1154,6 +1195,36 @@ pub fn run(tier: Tier) -> i32 {
             println!("machinery: cannot run cargo for the Send/Sync probe: {e}");
             return 2;
         }
+    }
+    // 3b. order of first use within a process: any interpreter that a lookup returns beyond the seven built-in ones
+    // makes the first calls of a fresh process; the seven languages must then answer as usual
+    {
+        let exe = std::env::current_exe().unwrap();
+        let mut extra = 0u64;
+        for tag in EXTRA_TAGS {
+            if !matches!(guard(|| text2num::get_interpreter_for(tag).is_some()), Ok(true)) {
+                continue;
+            }
+            extra += 1;
+            let mut cmd = Command::new(&exe);
+            die_with_parent(&mut cmd);
+            let out = cmd.args(["c14-order-child", tag]).stdin(Stdio::null()).stderr(Stdio::null()).output();
+            let Ok(o) = out else { continue };
+            for line in String::from_utf8_lossy(&o.stdout).lines() {
+                let Ok(v) = serde_json::from_str::<serde_json::Value>(line) else { continue };
+                let Some(l) = v["lang"].as_str().and_then(L::from_code) else { continue };
+                let expected: Vec<String> = order_results(l);
+                for (i, e) in expected.iter().enumerate() {
+                    acc.states += 1;
+                    acc.traces += 1;
+                    let got = v["results"][i].as_str().unwrap_or("<missing>");
+                    if got != e {
+                        ctx.report(&mut acc, Violation { lang: l.code().into(), entry: "history".into(), input: format!("fresh process: first the interpreter looked up as {tag:?} handles texts of every language; then {}", if i < NCALLS { call_name(i).to_string() } else { format!("probe #{} (one <linking word or unknown literal> unit at threshold 10)", i - NCALLS) }), threshold: None, clause: "the result of a call does not depend on which interpreter was used first in the process".into(), expected: e.clone(), observed: got.to_string() });
+                    }
+                }
+            }
+        }
+        acc.count("extra_interpreters_found_by_lookup", extra);
     }
     // 4. silence on the standard streams
     acc.states += 1;
